@@ -56,7 +56,7 @@ def wrapped_difference_rule(ctx, rule: str):
 
 
 def DSTEP():
-    return op("wrapdiff", op("diff", D, op("item", D, sp.Integer(0)), NONE_T), sp.Integer(360), NONE_T)
+    return op("wrapdiff", op("roll", D, sp.Integer(-1)) - D, sp.Integer(360), NONE_T)
 
 
 def dir_int(x):
@@ -177,7 +177,7 @@ def run(ctx):
     it2 = spec_interp(p)
     r = it2.call_function(f, [data, ["direction"]], {}, None)
     dd = op("item", data, Str("direction"))
-    dstep_data = op("wrapdiff", op("diff", dd, op("item", dd, sp.Integer(0)), NONE_T), sp.Integer(360), NONE_T)
+    dstep_data = op("wrapdiff", op("roll", dd, sp.Integer(-1)) - dd, sp.Integer(360), NONE_T)
     ctx.equiv("R02.5", "integrate_spectral_data[direction]", r, op("nansum", data * dstep_data, Str("direction")),
               f.loc(), "same wrapped-width quadrature as the spectrum class", interp=it2)
     r = it2.call_function(f, [data, ["frequency", "direction"]], {}, None)
